@@ -1505,9 +1505,11 @@ def _chain(n):
     return c
 
 
-def may_reach(F, d, u):
+def may_reach(F, d, u, scope=None):
     """Is there a control-flow path on which d is evaluated before u?  Both in
-    the same top-level body.  Conservative towards True inside loops."""
+    the same top-level body.  Conservative towards True inside loops; with
+    `scope` (a loop body / node containing both) only one execution of scope is
+    considered (loops enclosing scope are ignored)."""
     if d["_top"] is not u["_top"]:
         return False
     cd, cu = _chain(d), _chain(u)
@@ -1521,7 +1523,10 @@ def may_reach(F, d, u):
     lca = cd[i - 1]
     a, b = cd[i], cu[i]
     # inside a common loop: any order is possible
-    for x in cd[:i]:
+    common = cd[:i]
+    if scope is not None and any(x is scope for x in common):
+        common = common[[j for j, x in enumerate(common) if x is scope][0]:]
+    for x in common:
         if x.get("k") in ("Loop", "While", "For"):
             return True
     k = lca.get("k")
